@@ -4,6 +4,7 @@ import KlogV.Model.Calendar
 import KlogV.Model.Eval
 import KlogV.Model.Serialiser
 import KlogV.Model.Tags
+import KlogV.Model.Report
 open KlogV
 
 def optStr {α} (f : α → String) : Option α → String
@@ -62,8 +63,66 @@ def tagsLine (u : UTab) (lines : List (List Char)) : String :=
 def statsLine (u : UTab) (rs : List Record) : String :=
   commaSep ((sortStats (aggregateTags u rs)).map (fun s => s!"{hexOfChars (tagKey s.tag)}:{s.total}:{s.count}"))
 
+def dateOfStr (s : String) : Option Date := Date.parse s.toList
+
+def kindOfStr : String → PeriodKind
+  | "week" => .week | "month" => .month | "quarter" => .quarter | "year" => .year | _ => .day
+
+def etypeOfStr : String → Option EntryType
+  | "duration" => some .duration | "duration-positive" => some .positive | "duration-negative" => some .negative
+  | "range" => some .range | "open-range" => some .openRange | _ => none
+
+/-- flags: key=value tokens -/
+def flagsOf (u : UTab) (toks : List String) : Res (FilterFlags × Option Bool) :=
+  toks.foldl (fun acc tok => acc.bind fun (f, srt) =>
+    match tok.splitOn "=" with
+    | ["tag", h] => (match scanTags u (decodeGo (bytesOfHex h)) with
+        | [t] => .ok ({ f with tags := f.tags ++ [t] }, srt) | _ => .err)
+    | ["date", d] => .ok ({ f with date := dateOfStr d }, srt)
+    | ["since", d] => .ok ({ f with since := dateOfStr d }, srt)
+    | ["until", d] => .ok ({ f with until_ := dateOfStr d }, srt)
+    | ["after", d] => .ok ({ f with after := dateOfStr d }, srt)
+    | ["before", d] => .ok ({ f with before := dateOfStr d }, srt)
+    | ["etype", t] => .ok ({ f with etype := etypeOfStr t }, srt)
+    | ["period", h] => (match periodFromPattern (decodeGo (bytesOfHex h)) with
+        | .ok p => .ok ({ f with period := some p }, srt) | .err => .err | .panic => .panic)
+    | ["today"] => .ok ({ f with today := true }, srt)
+    | ["yesterday"] => .ok ({ f with yesterday := true }, srt)
+    | ["tomorrow"] => .ok ({ f with tomorrow := true }, srt)
+    | ["this", k] => .ok ({ f with shortcut := some (kindOfStr k, false) }, srt)
+    | ["last", k] => .ok ({ f with shortcut := some (kindOfStr k, true) }, srt)
+    | ["sort", o] => .ok (f, some (o == "asc"))
+    | _ => .err) (.ok ({}, none))
+
+def rowStr (r : Row) : String :=
+  match r.total with
+  | some (t, s) => s!"{t}/{s}"
+  | none => "-"
+
 def handle (u : UTab) (args : List String) : String :=
   match args with
+  | "filter" :: h :: y :: m :: d :: toks =>
+    withRecords h fun rs =>
+      match flagsOf u toks with
+      | .err => "flag-error"
+      | .panic => "panic"
+      | .ok (f, srt) =>
+        match flagsToQuery (dateOfArgs y m d) f with
+        | .ok q =>
+          let out := filterRecords u q rs
+          let out := match srt with | some asc => sortRecords asc out | none => out
+          "ok " ++ hexOrDash (hexOfChars (printRecords out))
+        | _ => "panic"
+  | ["report", h, k, fill] =>
+    withRecords h fun rs =>
+      match reportRows (kindOfStr k) (fill == "1") rs with
+      | some rows => s!"ok [{commaSep (rows.map rowStr)}] {totalMins rs}/{shouldSum rs}"
+      | none => "panic"
+  | ["todaysplit", h, y, m, d] =>
+    withRecords h fun rs =>
+      match splitCurrentOther (dateOfArgs y m d) rs with
+      | some (c, o, isY) => s!"ok {c.length}:{totalMins c}/{shouldSum c} {o.length}:{totalMins o}/{shouldSum o} {b01 isY}"
+      | none => "panic"
   | ["tags", h] => tagsLine u [decodeGo (bytesOfHex h)]
   | ["tagstats", h] => withRecords h fun rs => "ok " ++ statsLine u rs
   | ["blocks", h] => "ok " ++ canonBlocks (blocksOf (bytesOfHex h))
